@@ -169,3 +169,19 @@ UNITS.append(Native(
           "a verification error must validate against both generated schemas (8), those whose only violations are length "
           "/ pattern / list-size constraints must be rejected by both (8); the rest is not judged (the schemas cannot "
           "express arithmetic invariants)", args={}, timeout_s=600))
+
+UNITS.append(Native(
+    "constructor arguments of the generated Python SDK reach the right properties", ["C10", "C29"], "native.c10x:bounded",
+    kind="examples",
+    bound="one meta-model: a parent with three constructor arguments, two children and a grandchild that list the "
+          "inherited arguments in another order (defaults move an argument behind the others) and add their own, a "
+          "container: 7 instances built by keyword -- every property holds the value passed for it (or its default) -- "
+          "and the JSON / XML round trips of each and of the container keep every field", args={}, timeout_s=600))
+
+UNITS.append(Native(
+    "optional-returning methods in invariants: generated Java SDK against the generated Python SDK", ["C09"],
+    "native.c09:methods", kind="examples",
+    bound="one meta-model with an implementation-specific method returning Optional[str] used in three invariants (is not "
+          "None, guard of an implication, is None or ...), with a Python and a Java snippet for it: 6 instances built in "
+          "both SDKs, (path, description) sets of the verification equal.  The C++ generator does not support methods",
+    args={}, timeout_s=900))
